@@ -324,6 +324,13 @@ class Model:
                     return self.const_value(self.modules[mod], self.modules[mod].assigns[attr], _depth + 1)
         raise Undecided(f'not a constant: {ast.unparse(expr)} in {module.relpath}')
 
+    def snippet_func(self, src, name='control'):
+        """FuncInfo for an embedded source fragment (positive controls for rules whose expected count is zero)."""
+        tree = ast.parse(src)
+        mod = Module('<control>', '<control>', '<control>', 'py', src, tree)
+        node = next(n for n in tree.body if isinstance(n, ast.FunctionDef))
+        return FuncInfo(f'<control>.{node.name}', node, mod)
+
     def all_functions(self, kinds=('py',)):
         return [f for f in self.functions.values() if f.module.kind in kinds]
 
